@@ -9,8 +9,9 @@ import RpmVerif.Lemmas.SignE
 /-!
 # C09 — emitted packages satisfy rpm's structural rules
 
-Spec: `Spec/RpmValid.lean` (`LeadValid`, `HeaderValid`, `SigPadding`, `CompressorMagic`, `RpmlibDeclared`,
-`CpioValid`, `PackageValid`).  Model: `Model/FromEntries.lean`, `Model/Builder.lean`, `Model/Cpio.lean`.
+Spec: `Spec/RpmValid.lean` (`LeadValid`, `HeaderValid`, `SigLimits`, `TagTypesOk`, `SigPadding`, `CompressorMagic`, `PayloadFlagsOk`,
+`RpmlibDeclared`, `CpioValid`, `PackageValid`, `ForeignValid`), `Spec/RpmTagTypes.lean` (rpm's tag table).
+Model: `Model/FromEntries.lean`, `Model/Builder.lean`, `Model/Cpio.lean`.
 
 Theorems (all for ALL inputs of the stated shape; no bound on sizes, counts or lengths):
 
@@ -22,21 +23,36 @@ Theorems (all for ALL inputs of the stated shape; no bound on sizes, counts or l
   `prepare_data` can emit (all 102 slots) is non-empty and carries a tag ≥ 100 (this is where fix 024ca91
   matters: `scrProg` emits nothing for an empty interpreter list).
 * `build_header_valid` (`mainHeader_valid`) — the main header of every valid configuration is valid.
+* `slots_types` / `build_tagtypes_valid` — every slot carries data of the type rpm's tag table gives its tag (`hdrchkTagType`);
+  `asset_tag_types_agree` — the transcribed table agrees with the (tag, type) pairs scraped from the rpm-built asset packages.
 * `sign_clear_valid` — every signature header built by `build`, `sign`, `build_and_sign`,
-  `clear_signatures` is valid; a sign / clear history only ever replaces the signature header by such a one.
+  `clear_signatures` is valid; a sign / clear history only ever replaces the signature header by such a one;
+  `sig_limits_valid` — it has at most 4 of the 32 index entries and at most 64 MiB of data rpm allows in a signature header.
 * `lead_valid`, `sigPadding_written` — lead fields; zero padding to 8 after the signature header.
-* `rpmlib_declared`, `build_rpmlib_valid` — the rpmlib() features used are declared (fix 9787c3c: xz, bzip2).
+* `build_flags_valid` — PAYLOADFLAGS is a plain STRING.
+* rpmlib(): `rpmlib_declared`, `build_struct_features_declared` — the nine STRUCTURAL features (compressor — fix 9787c3c: xz, bzip2 —,
+  capabilities, large files, compressed file names, file digests, "./" prefix) are declared for every configuration.
+  The four CONTENT features rpmbuild derives from dependencies and scriptlets (TildeInVersions, CaretInVersions, RichDependencies,
+  ScriptletInterpreterArgs) are never declared by `prepare_data` (`allRequires_mem`): the clause "with the rpmlib() features it uses
+  declared" is REFUTED for the current code in general form — `tilde_undeclared`, `caret_undeclared`, `rich_undeclared`,
+  `interp_args_undeclared` (via `content_undeclared`; `evrHasChar_built`, `hasRichDep_built`, `hasInterpArgs_built` express rpm's three
+  tests on the built header in terms of the configuration) — and PROVED for the configurations that use none of the four:
+  `build_rpmlib_valid_partial` under `PlainFeatures` (`plain_of_user`: from the caller's own arguments).
+  Full statement, false today: `∀ x pre, RpmlibDeclared (C06.hdrOf x) pre`.
 * `cpioCheck_archiveOf`, `cpioCheck_stripped`, `headerFiles_built`, `payload_valid_std`, `payload_valid_large`
-  — the archive the builder writes passes the cpio rules against the header built from the same files
-  (names "." ++ dir ++ base name — guaranteed by `add_data` since fix cbb69e5, C17 `add_data_cpio_name`).
+  — the archive the builder writes passes the cpio rules — read by the Spec's OWN newc reader, a transcription of rpm's
+  `rpmcpioHeaderRead` (`RpmValid.readEntry`; `Lemmas/RpmCpio.lean`), not by the model of rpm-rs' reader — against the header built
+  from the same files (names "." ++ dir ++ base name — guaranteed by `add_data` since fix cbb69e5, C17 `add_data_cpio_name`);
+  `plus_field_rejected` — the two readers differ where they should (`+000000b`).
 * `compressor_magic_valid` — the header names the compressor; the codec crates enter through `CodecMagic`
   (a compressed stream starts with its format's magic; exercised on every generated package, not proved).
-* `build_valid` — the whole statement: write → parse gives back the built package and `PackageValid` holds.
+* `build_valid` — the whole statement: write → parse gives back the built package and `PackageValid` holds (with `PlainFeatures`).
 * `sign_clear_valid_discharged`, `sigsOk_of_build` — the same with NOTHING assumed about the legacy tags: they are computed by
   the model of `SignatureHeaderBuilder::build` (`Sign.sigBuilderBuild`: parse, `match` on the algorithm — table scraped from the
   source by tools/gen/sig_algs.py —, encode), and every arm selects RPMSIGTAG_RSA / RPMSIGTAG_DSA (`Sign.legacyTagOf_mem_range`).
 * `history_valid` — a valid package (built here or by rpm) stays valid under every non-empty history of
-  `sign` / `clear_signatures` calls: they replace the signature header by a valid one and touch nothing else.
+  `sign` / `clear_signatures` calls: they replace the signature header by a valid one and touch nothing else;
+  `history_foreign_valid` — the same for `ForeignValid`, the rules rpm-built packages satisfy (`fPkg_foreign_valid`: satisfiable).
 * `count_zero_rejected`, `xz_undeclared_rejected` — the two repaired defects are violations of the spec.
 -/
 namespace RpmVerif.C09
